@@ -59,6 +59,8 @@ package agessh
 //@   ensures#tag (block.Type == "ssh-rsa" && len(block.Args) == 1 && block.Args[0] != fpof(i.sshKey)) ==> err == age.ErrIncorrectIdentity   [C01 C04]
 //@   ensures#nil err != nil ==> fk == nil                                                                         [C01 C04]
 //@   ensures#ok err == nil ==> block.Type == "ssh-rsa" && block.Args[0] == fpof(i.sshKey) && bytes(fk) == oaepdec(id(i.k), bytes(block.Body), OAEPLABEL)   [C01 C04 C05]
+//@   ensures#opens (block.Type == "ssh-rsa" && len(block.Args) == 1 && block.Args[0] == fpof(i.sshKey) && oaepok(id(i.k), bytes(block.Body), OAEPLABEL)) ==> err == nil   [C01 C05]
+//@   ensures#wrongkey (block.Type == "ssh-rsa" && len(block.Args) == 1 && block.Args[0] == fpof(i.sshKey) && !oaepok(id(i.k), bytes(block.Body), OAEPLABEL)) ==> err != nil   [C04]
 //@   ensures#frame i.k == old(i.k) && i.sshKey == old(i.sshKey)                                                   [C20]
 //@   modifies nothing
 
@@ -91,6 +93,7 @@ package agessh
 //@   ensures#foreign block.Type != "ssh-ed25519" ==> err == age.ErrIncorrectIdentity                              [C01 C04 C05]
 //@   ensures#tag (block.Type == "ssh-ed25519" && len(block.Args) == 2 && b64rawok(block.Args[1]) && len(unb64raw(block.Args[1])) == 32 && block.Args[0] != fpof(i.sshKey)) ==> err == age.ErrIncorrectIdentity   [C01 C04]
 //@   ensures#nil err != nil ==> fk == nil                                                                         [C01 C04]
+//@   ensures#opens (block.Type == "ssh-ed25519" && len(block.Args) == 2 && b64rawok(block.Args[1]) && len(unb64raw(block.Args[1])) == 32 && block.Args[0] == fpof(i.sshKey) && x25519ok(bytes(i.secretKey), unb64raw(block.Args[1])) && x25519ok(edTweak(i.sshKey), x25519(bytes(i.secretKey), unb64raw(block.Args[1]))) && openok(edKey(x25519(edTweak(i.sshKey), x25519(bytes(i.secretKey), unb64raw(block.Args[1]))), unb64raw(block.Args[1]), bytes(i.ourPublicKey)), zeros(12), bytes(block.Body))) ==> err == nil   [C01 C05]
 //@   ensures#frame i.secretKey == old(i.secretKey) && i.ourPublicKey == old(i.ourPublicKey) && i.sshKey == old(i.sshKey)   [C20]
 //@   modifies nothing
 
